@@ -414,8 +414,10 @@ where
 
     #[inline(always)]
     fn interpolate(a: f64, b: f64, t: f64) -> f64 {
-        debug_assert!((0. ..=1.).contains(&t));
-        debug_assert!(a <= b);
+        // `t` and the order of `a` and `b` only hold up to rounding: centroid means are `sum / count` and the
+        // cumulative weights are running sums, so both can be off by a few ulps
+        let t = t.max(0.).min(1.);
+        let b = b.max(a);
         t * b + (1. - t) * a
     }
 
@@ -432,7 +434,8 @@ where
         let c_first = &self.centroids[0];
         if limit <= c_first.count * 0.5 {
             let t = limit / (0.5 * c_first.count);
-            return Self::interpolate(self.min, c_first.mean(), t);
+            // the mean of a centroid is `sum / count` and may leave `[min, max]` by rounding
+            return Self::interpolate(self.min, c_first.mean().max(self.min), t);
         }
 
         let mut cum = 0.;
@@ -454,7 +457,7 @@ where
         cum -= 0.5 * c_last.count;
         let delta = s - 0.5 * c_last.count;
         let t = (limit - cum) / delta;
-        Self::interpolate(c_last.mean(), self.max, t)
+        Self::interpolate(c_last.mean().min(self.max), self.max, t)
     }
 
     fn cdf(&self, x: f64) -> f64 {
